@@ -158,15 +158,32 @@ func checkC08(r *Run) {
 	for m := range mthTable {
 		methods = append(methods, m)
 	}
+	// one-edit neighbours of the known names: every token-legal first / last byte substitution, a dropped or doubled letter
+	for m := range mthTable {
+		for x := byte(33); x < 127; x++ {
+			if x == m[0] {
+				continue
+			}
+			methods = append(methods, string(x)+m[1:])
+			if x != m[len(m)-1] && x%4 == 1 {
+				methods = append(methods, m[:len(m)-1]+string(x))
+			}
+		}
+		methods = append(methods, m[1:], m+m[len(m)-1:], m[:1]+m)
+	}
 	methods = append(methods, "OTHER", "invite", "Invite", "INVITe", "FOO", "X", "INVITE2", "IN", "SIP", "SIP/2.00", "a-b.c!%*_+`'~", "\x80\xff")
 	uris := []string{"sip:a@b", "x", "*", "sip:a;b?c=d", "sips:[::1]:5061;transport=tls", "SIP/2.0"}
 	vers := []string{"SIP/2.0", "SIP/3.0", "x", "sip/2.0"}
 	terms := []string{"\r\n", "\n", "\r"}
 	var cases []flCase
-	for _, m := range methods {
-		for _, u := range uris {
-			for _, v := range vers {
-				for _, t := range terms {
+	for mi, m := range methods {
+		_, known := mthTable[m]
+		for ui, u := range uris {
+			for vi, v := range vers {
+				for ti, t := range terms {
+					if !known && len(methods)-mi > 14 && (ui != mi%len(uris) || vi != mi%len(vers) || ti != mi%len(terms)) {
+						continue // neighbour names: one URI/version/terminator combination each (rotating)
+					}
 					cases = append(cases, flCase{Kind: "request", A: m, B: u, C: v, Term: t}, flCase{Kind: "request", A: m, B: u, C: v, Term: t, ViaMsg: true})
 				}
 			}
